@@ -14,3 +14,30 @@ pub fn sha256_hex(b: &[u8]) -> String {
     use sha2::Digest;
     hex::encode(sha2::Sha256::digest(b))
 }
+
+/// A logger that formats every record (so that log arguments are evaluated, as they are in an
+/// application that enables debug logging) and discards the text.
+struct EvalLogger;
+impl log::Log for EvalLogger {
+    fn enabled(&self, _: &log::Metadata) -> bool {
+        true
+    }
+    fn log(&self, record: &log::Record) {
+        use std::fmt::Write;
+        let mut sink = Discard;
+        let _ = write!(sink, "{}", record.args());
+    }
+    fn flush(&self) {}
+}
+struct Discard;
+impl std::fmt::Write for Discard {
+    fn write_str(&mut self, _: &str) -> std::fmt::Result {
+        Ok(())
+    }
+}
+static LOGGER: EvalLogger = EvalLogger;
+pub fn install_logger() {
+    if log::set_logger(&LOGGER).is_ok() {
+        log::set_max_level(log::LevelFilter::Trace);
+    }
+}
